@@ -151,44 +151,162 @@ def check_nlsat(formulas, timeout_s):
     return "unknown", None
 
 
-def check_formulas(formulas, timeout_s=10, want_model=True, second=True):
-    """satisfiability of the conjunction; returns (result, model_dict|None, backend, ms)"""
-    t0 = time.time()
+def _in_child(fn, timeout_s):
+    """run fn() in a forked child with a hard wall-clock limit (z3's own timeout is not always honoured
+    inside nonlinear preprocessing); returns fn's JSON-able result or ("timeout", None)"""
+    import json
+    import select
+    import signal
+    r, w = os.pipe()
+    pid = os.fork()
+    if pid == 0:
+        try:
+            os.close(r)
+            try:
+                res = fn()
+            except BaseException as e:  # noqa
+                res = ("error:" + type(e).__name__, None)
+            data = json.dumps(res).encode()
+            os.write(w, data)
+        finally:
+            os._exit(0)
+    os.close(w)
+    buf = b""
+    deadline = time.time() + timeout_s
+    try:
+        while True:
+            left = deadline - time.time()
+            if left <= 0:
+                os.kill(pid, signal.SIGKILL)
+                return "timeout", None
+            rd, _, _ = select.select([r], [], [], left)
+            if not rd:
+                os.kill(pid, signal.SIGKILL)
+                return "timeout", None
+            chunk = os.read(r, 1 << 16)
+            if not chunk:
+                break
+            buf += chunk
+    finally:
+        os.close(r)
+        try:
+            os.waitpid(pid, 0)
+        except ChildProcessError:
+            pass
+    if not buf:
+        return "unknown", None
+    res = json.loads(buf.decode())
+    return res[0], res[1]
+
+
+def _check_default(formulas, timeout_s):
     s = z3.Solver()
     s.set("timeout", int(timeout_s * 1000))
-    s.set("timeout", int(max(1, timeout_s / 4) * 1000))
     for f in formulas:
         s.add(f)
     r = s.check()
-    ms = (time.time() - t0) * 1000
     if r == z3.unsat:
-        return "unsat", None, "z3-5.1", ms
+        return "unsat", None
     if r == z3.sat:
-        return "sat", (_model_dict(s.model()) if want_model else None), "z3-5.1", ms
-    r2, model = check_nlsat(formulas, timeout_s)
-    ms = (time.time() - t0) * 1000
-    if r2 == "unsat":
-        return "unsat", None, "z3-5.1-nlsat(ackermannized)", ms
-    if r2 == "sat":
-        return "sat", model, "z3-5.1-nlsat(ackermannized)", ms
+        return "sat", _model_dict(s.model())
+    return "unknown", None
+
+
+def check_formulas(formulas, timeout_s=10, want_model=True, second=True):
+    """satisfiability of the conjunction; returns (result, model_dict|None, backend, ms).
+    Strategy: pure-real problems go to nlsat after ackermannisation first (complete for QF_NRA), mixed
+    problems to the default solver first; every attempt runs in a child process with a hard time limit."""
+    t0 = time.time()
+    has_int = _has_int(formulas)
+    attempts = []
+    if has_int:
+        attempts = [("z3-5.1", lambda: _check_default(formulas, timeout_s), timeout_s),
+                    ("z3-5.1-nlsat(ackermannized)", lambda: check_nlsat(formulas, timeout_s), timeout_s)]
+    else:
+        attempts = [("z3-5.1-nlsat(ackermannized)", lambda: check_nlsat(formulas, timeout_s), timeout_s),
+                    ("z3-5.1", lambda: _check_default(formulas, max(1, timeout_s / 2)), max(1, timeout_s / 2))]
+    # cheap first try in-process for trivial queries (no fork): 150 ms budget
+    s = z3.Solver()
+    s.set("timeout", 150)
+    for f in formulas:
+        s.add(f)
+    try:
+        r = s.check()
+    except z3.Z3Exception:
+        r = z3.unknown
+    if r == z3.unsat:
+        return "unsat", None, "z3-5.1", (time.time() - t0) * 1000
+    if r == z3.sat:
+        return "sat", (_model_dict(s.model()) if want_model else None), "z3-5.1", (time.time() - t0) * 1000
+    for name, fn, tl in attempts:
+        res, model = _in_child(fn, tl + 2)
+        if res == "unsat":
+            return "unsat", None, name, (time.time() - t0) * 1000
+        if res == "sat":
+            return "sat", model, name, (time.time() - t0) * 1000
     if second:
         smt2 = to_smt2(formulas)
-        t1 = time.time()
         res = run_cli(["/usr/bin/cvc5", "--tlimit", str(int(timeout_s * 1000))], smt2, timeout_s)
-        ms2 = (time.time() - t1) * 1000
         if res == "unsat":
-            return "unsat", None, "cvc5-1.0.3", ms + ms2
-        t1 = time.time()
+            return "unsat", None, "cvc5-1.0.3", (time.time() - t0) * 1000
         res = run_cli(["/usr/bin/z3", f"-T:{int(timeout_s)}"], smt2, timeout_s)
-        ms3 = (time.time() - t1) * 1000
         if res == "unsat":
-            return "unsat", None, "z3-4.8.12", ms + ms2 + ms3
-        return "unknown", None, "z3-5.1+cvc5+z3-4.8", ms + ms2 + ms3
-    return "unknown", None, "z3-5.1", ms
+            return "unsat", None, "z3-4.8.12", (time.time() - t0) * 1000
+        return "unknown", None, "z3-5.1+cvc5+z3-4.8", (time.time() - t0) * 1000
+    return "unknown", None, "z3-5.1", (time.time() - t0) * 1000
+
+
+def _symbols(e, cache):
+    i = e.get_id()
+    if i in cache:
+        return cache[i]
+    out = set()
+    stack = [e]
+    seen = set()
+    while stack:
+        x = stack.pop()
+        if x.get_id() in seen:
+            continue
+        seen.add(x.get_id())
+        if z3.is_quantifier(x):
+            stack.append(x.body())
+            continue
+        if z3.is_app(x):
+            d = x.decl()
+            if d.kind() == z3.Z3_OP_UNINTERPRETED:
+                out.add(d.name())
+            stack.extend(x.children())
+    cache[i] = out
+    return out
+
+
+def slice_assumptions(assumptions, goal):
+    """cone of influence: keep the assumptions that (transitively) share an uninterpreted symbol with the
+    goal.  Dropping assumptions is sound for proving (the query only gets weaker)."""
+    cache = {}
+    rel = set(_symbols(goal, cache))
+    rest = [(a, _symbols(a, cache)) for a in assumptions]
+    keep = []
+    changed = True
+    while changed:
+        changed = False
+        nxt = []
+        for a, sy in rest:
+            if not sy or (sy & rel):
+                keep.append(a)
+                if not sy <= rel:
+                    rel |= sy
+                    changed = True
+            else:
+                nxt.append((a, sy))
+        rest = nxt
+    return keep
 
 
 def prove(assumptions, goal, timeout_s=10, opts=None, rounds=2):
     """PROVED iff assumptions ∧ axiom-instances ∧ ¬goal is unsat"""
+    if not (opts or {}).get("no_slice"):
+        assumptions = slice_assumptions(list(assumptions), goal)
     base = [a for a in assumptions] + [z3.Not(goal)]
     inst = axioms.saturate(base, rounds=rounds, opts=opts)
     formulas = base + inst
